@@ -8,10 +8,10 @@ pub fn prop() -> Prop {
     Prop {
         id: "C16",
         level: "fault_enumeration",
-        rule: "inputs: clean and noisy streams over a 7-value core (1..3 values, 4 separator kinds; thorough adds all pairs) plus three long ones (2500 rows, a 9000-character string, 700 noisy lines) faulted at the first and last 40 offsets and around 255, 256, 1 KiB, 4 KiB, 8 KiB, 16 KiB, 32 KiB, 64 KiB of the input and of the output; faults: the reader fails when asked for the byte at EVERY offset 0..=len (after 0,1,2 Interrupted results; for inputs of <=60 (thorough <=400) bytes also with 8 other io::ErrorKinds: BrokenPipe, ConnectionReset, ConnectionAborted, UnexpectedEof, TimedOut, WouldBlock, InvalidData, PermissionDenied), Interrupted at every offset without failure, stdout fails after accepting EVERY number of bytes 0..len(out) (plain, with 1- and 3-byte short writes, with Interrupted on every 2nd call), stderr likewise under --on-error=stderr, unopenable files in every position of a file list; x 4 policies x 11 pipelines (streaming, select, sort, group, --utf8-strings, text, csv, and four with --skip/--take: alone, pretty style, behind a sort, behind split and filter); inputs with \\uXXXX escapes in strings and member names; non-trivial = the fault offset falls strictly inside the input/output; distinct by construction; a file that opens but whose first read fails (/proc/self/mem) in every position of a list of <=3 files",
+        rule: "inputs: clean and noisy streams over a 7-value core (1..3 values, 4 separator kinds; thorough adds all pairs) plus three long ones (2500 rows, a 9000-character string, 700 noisy lines) faulted at the first and last 40 offsets and around 255, 256, 1 KiB, 4 KiB, 8 KiB, 16 KiB, 32 KiB, 64 KiB of the input and of the output; faults: the reader fails when asked for the byte at EVERY offset 0..=len (after 0,1,2 Interrupted results; for inputs of <=60 (thorough <=400) bytes also with 8 other io::ErrorKinds: BrokenPipe, ConnectionReset, ConnectionAborted, UnexpectedEof, TimedOut, WouldBlock, InvalidData, PermissionDenied), Interrupted at every offset without failure, stdout fails after accepting EVERY number of bytes 0..len(out) (plain, with 1- and 3-byte short writes, with Interrupted on every 2nd call; for outputs of <=200 bytes also with 7 other io::ErrorKinds, WouldBlock and TimedOut being transient), stderr likewise under --on-error=stderr, unopenable files in every position of a file list; x 4 policies x 11 pipelines (streaming, select, sort, group, --utf8-strings, text, csv, and four with --skip/--take: alone, pretty style, behind a sort, behind split and filter); inputs with \\uXXXX escapes in strings and member names; non-trivial = the fault offset falls strictly inside the input/output; distinct by construction; a file that opens but whose first read fails (/proc/self/mem) in every position of a list of <=3 files",
         explanation: "every fault point of every history is enumerated on the real code with fault-injecting Read/Write implementations; oracle: Err (not Ok, not a panic), the reader is never asked again after its failure, stdout is a prefix of the fault-free stdout; a fault the fault-free run never reaches must change nothing",
         assumptions: COMMON_ASSUMPTIONS.to_vec(),
-        guards: vec!["file-whose-first-read-fails", "other-error-kinds", "raw-utf8-row-longer-than-60-bytes", "fault-beyond-8192", "read-fault-inside-value", "read-fault-at-eof", "write-fault-inside-row", "interrupted-then-error", "short-writes", "stderr-write-fault", "missing-file"],
+        guards: vec!["other-write-error-kinds", "file-whose-first-read-fails", "other-error-kinds", "raw-utf8-row-longer-than-60-bytes", "fault-beyond-8192", "read-fault-inside-value", "read-fault-at-eof", "write-fault-inside-row", "interrupted-then-error", "short-writes", "stderr-write-fault", "missing-file"],
         budget_s: (100, 1800),
         single_worker: false,
         run,
@@ -202,9 +202,19 @@ fn run(ctx: &mut Ctx) {
                 }
                 // ---- write faults on stdout at every offset of the fault-free output
                 for k in offsets(ff.stdout.len()) {
-                    for (variant, chunk, intr) in [("plain", 0usize, 0usize), ("short1", 1, 0), ("short3", 3, 0), ("eintr", 0, 2)] {
+                    // the kind of the failure: the generic one, and (for outputs of <= 200 bytes, behind 3-byte short writes
+                    // so that a row is partly accepted) seven others, two of them transient
+                    let mut variants: Vec<(&str, usize, usize, &str)> = vec![("plain", 0usize, 0usize, ""), ("short1", 1, 0, ""), ("short3", 3, 0, ""), ("eintr", 0, 2, "")];
+                    if ff.stdout.len() <= 200 {
+                        for wk in ["WouldBlock", "TimedOut", "BrokenPipe", "WriteZero", "ConnectionReset", "PermissionDenied", "OutOfMemory"] {
+                            variants.push((wk, 3, 0, wk));
+                            variants.push((wk, 0, 0, wk));
+                        }
+                        ctx.guard("other-write-error-kinds");
+                    }
+                    for (variant, chunk, intr, wkind) in variants {
                         let mut c = base.clone();
-                        c.wplan = WritePlan { stdout_fail_at: Some(k), stderr_fail_at: None, max_chunk: chunk, interrupt_every: intr };
+                        c.wplan = WritePlan { stdout_fail_at: Some(k), stderr_fail_at: None, max_chunk: chunk, interrupt_every: intr, error_kind: wkind.to_string() };
                         let o = ctx.run(&c);
                         ctx.case_done();
                         ctx.trace_validated();
@@ -237,7 +247,7 @@ fn run(ctx: &mut Ctx) {
                 // short writes / EINTR without a failure change nothing
                 for (chunk, intr) in [(1usize, 0usize), (3, 0), (0, 2), (2, 3)] {
                     let mut c = base.clone();
-                    c.wplan = WritePlan { stdout_fail_at: None, stderr_fail_at: None, max_chunk: chunk, interrupt_every: intr };
+                    c.wplan = WritePlan { stdout_fail_at: None, stderr_fail_at: None, max_chunk: chunk, interrupt_every: intr, error_kind: String::new() };
                     let o = ctx.run(&c);
                     ctx.case_done();
                     if o.res != ff.res || o.stdout != ff.stdout || o.stderr != ff.stderr {
@@ -247,7 +257,7 @@ fn run(ctx: &mut Ctx) {
                 // ---- stderr faults (only meaningful when diagnostics go there)
                 for k in offsets(ff.stderr.len()) {
                     let mut c = base.clone();
-                    c.wplan = WritePlan { stdout_fail_at: None, stderr_fail_at: Some(k), max_chunk: 0, interrupt_every: 0 };
+                    c.wplan = WritePlan { stdout_fail_at: None, stderr_fail_at: Some(k), max_chunk: 0, interrupt_every: 0, error_kind: String::new() };
                     let o = ctx.run(&c);
                     ctx.case_done();
                     ctx.trace_validated();
